@@ -53,7 +53,7 @@ GAUSS_MUTANTS = {'child-map': 'ChildrenTile', 'simplex-moment': 'RefVolume'}
 ALL = ['A', 'C', 'B', 'G', 'D', 'H', 'U', 'W', 'L', 'M', 'R', 'T', 'V', 'P', 'Q', 'AC', 'BG', 'Ac', 'Bc', 'EX', 'EY']
 LEAVES = {
     'quick': (['A', 'B', 'T', 'L', 'P', 'Q', 'AC', 'Ac', 'EX'], ['C', 'B', 'D', 'W', 'AC', 'EX']),
-    'thorough2': (ALL, ['A', 'C', 'B', 'G', 'D', 'U', 'W', 'L', 'R', 'T', 'P', 'Q', 'AC', 'BG', 'Ac', 'EX']),
+    'thorough2': (ALL, ['A', 'C', 'B', 'D', 'W', 'L', 'T', 'Q', 'AC', 'EX']),
     'thorough3': (['A', 'B', 'L', 'T', 'AC'], ['C', 'B', 'D', 'A', 'AC']),
     'sim': (ALL, ALL),
     'total': (['A'], ['C', 'B']),
@@ -147,7 +147,8 @@ def run(rep):
         *(('at 1/2 of line, triangle, square (maxrefine 0, 1)', 9, '4 (3 in 3D)') if quick else ('at 1/4, 1/2, 3/4 in all dimensions (maxrefine 0, 1)', 14, '7 (5 in 3D)')))
 
     jobs = plan(rep.tier, rep.seed, tables)
-    with concurrent.futures.ThreadPoolExecutor(max_workers=len(jobs)) as pool:
+    # the machine is shared: at most four TLC processes at a time
+    with concurrent.futures.ThreadPoolExecutor(max_workers=min(4, len(jobs))) as pool:
         futures = [pool.submit(_run_job, item) for item in jobs.items()]
         results = dict(f.result() for f in futures)
     rep.lap('tlc design runs')
@@ -228,7 +229,7 @@ def run(rep):
     rep.extra['nestings_without_elementwise_access'] = len(unsupported)
     rep.extra['shortest_nesting_without_elementwise_access'] = cs.ops_str(min(unsupported, key=lambda b: (b['nops'], len(cs.ops_str(b['ops']))))['ops'])
     # all nestings of at most one operation, the counterexample of Total, and a seeded selection of the deeper ones
-    budget = 320 if quick else 9000
+    budget = 320 if quick else 5000
     first = lambda b: b['nops'] <= 1 or cs.ops_key(b['ops']) == total_key
     shallow = [b for b in states if first(b)]
     deep = [b for b in states if not first(b)]
